@@ -147,7 +147,7 @@ def main():
         bounds=dict(orders=[u['order'] for u in us if 'order' in u], N='2' if tier == 'quick' else '2..3', steps_each_way='1' if tier == 'quick' else '1..2'),
         assumptions=['no double->int64 conversion is out of range (that would be undefined behaviour in C, not a reversibility question)', 'no NaN among the symbolic doubles',
                      'sign rewrites of fmul/fdiv/fptosi and commutativity of fmul: proved on binary64 in this run (lemma obligations)', 'integer addition wraps (bit-vector semantics)'],
-        outside=['the other time-symmetric schemes (LEAPFROG, WHFast, SABA, EOS, SEI) reversing to rounding error: not built', 'n > 2 steps; N > 3'],
+        outside=['the other time-symmetric schemes (LEAPFROG, WHFast, SABA, EOS, SEI) reversing to rounding error (their operator words are proved palindromic in C01; the size of the rounding error is not decided)', 'n > 2 steps; N > 3'],
         domain_note='UF for doubles with sign normalisation + QF_BV for the integer grid; FP(11,53) for the lemmas')
     sys.exit(code)
 
